@@ -82,7 +82,7 @@ def load_specs():
             path = os.path.join(d, fn)
             exec(compile(open(path).read(), path, "exec"), env)
     for k in ("forall", "exists", "implies", "iff", "ite", "bxor", "sub", "file_content", "file_pos", "fits_bytes", "aes_enc", "aes_dec",
-              "hmac_sha256", "sha256"):
+              "hmac_sha256", "sha256", "rsa_ok", "rsa_pt", "rsa_k", "keypair"):
         env[k] = getattr(rt, k)
     return env
 
@@ -139,6 +139,10 @@ def from_json(j, tmpfiles=None):
         mod = importlib.import_module(j["module"])
         cls = getattr(mod, j["record"])
         return cls(**{k: from_json(v, tmpfiles) for k, v in j["fields"].items()})
+    if "rsa_key" in j:
+        from Crypto.PublicKey import RSA
+        key = RSA.import_key(open(os.path.join(ROOT, "contracts", "spec", f"test_rsa_{j['rsa_key']}.pem"), "rb").read())
+        return key.publickey() if j.get("public") else key
     if "opaque" in j:
         return None
     if "py" in j:
